@@ -11,6 +11,12 @@ shuffled `os.walk`) and compared with
 under the hypothesis `hyp` of theorem `C15_created_partial`.  `casefold`, `fnmatch` and
 `re.search` are oracle tables computed here for exactly the strings the model/spec ask for
 (`c15.queries`).  `utils.list_files` is tied to the model's `listFiles` separately.
+
+Empty files (since /repo d89a92e `_set_files` drops them itself, by the size it knows and
+`os.path.exists` of the path as listed) are judged like everything else: from every cwd, under every
+spelling, with and without unrelated same-named files below the cwd; `empty_family()` is a fixed
+set of such trees that runs on every seed.  The `files` setter (outside C15's statement) is tied
+to the model `filesSetter` as correspondence only (`c15.files`).
 """
 import fnmatch
 import hashlib
@@ -28,8 +34,15 @@ RULE = ('groups = (tree, pattern settings); trees: <= 12 files, nesting <= 3, hi
         'dotted root names; each group at 2 tmpfs locations x ~25 (cwd, spelling) variants (parent / '
         'tree / child / grandchild / unrelated cwd; T, ./T, T/, T//, absolute, //absolute, ../P/T, '
         'abs with .., ., ./, .//., .., ../, ../., ./.., ../../T, child/.., ../..) x shuffled os.walk order; '
-        'non-trivial = tree with >= 2 files addressed other than by its bare name from its parent; '
-        'distinct = distinct (tree, settings, location, cwd, spelling)')
+        'a fixed family of trees with empty files (top level, nested, in hidden directories, the only file, '
+        'all files, matched by an include pattern, with unrelated same-named empty / non-empty files and '
+        'directories below the cwd) under all variants; '
+        'histories: one Torrent object through 3-8 operations (constructor with/without path and patterns, path = '
+        'dir / file / empty dir / missing / None, every list operation on the four pattern lists: assignment, append, '
+        'extend, +=, insert, remove, pop, clear, item assignment / deletion, reverse), biased towards states in which '
+        'every file is excluded, each state compared with a fresh Torrent(path, current patterns) and the Lean trace; '
+        'non-trivial = tree with >= 2 files addressed other than by its bare name from its parent / history with a '
+        'pattern change; distinct = distinct (tree, settings, location, cwd, spelling) / distinct (world, history)')
 
 ASSUMPTIONS = [
     'POSIX path semantics (pathlib/os.path) modelled on component lists; no symbolic links (".." is lexical); "//" root treated as "/"',
@@ -38,6 +51,11 @@ ASSUMPTIONS = [
     'piece length is not modelled: it must be equal for all variants of a group that meet the specification',
     'in the empty result (no file kept) info has neither files nor length; the lazily defaulted Torrent.name is not observed',
     'files are readable (permission errors are C08/ReadError territory)',
+    'os.path.exists agrees with what os.walk has just listed (no change of the file system between the two; hypothesis listedExist)',
+    'histories: the world is static (no chdir, no change of the trees between operations); settings = the four pattern lists and path; '
+    'the callback firings of a list operation are recorded from the running object (subclass overriding _filters_changed), '
+    'which firings an operation produces is MonitoredList semantics (C09/C16); history patterns are an ASCII / *-only / literal-regex '
+    'fragment that the Lean driver evaluates itself',
 ]
 
 # ------------------------------------------------------------------------------------------
@@ -261,7 +279,10 @@ def build_fs(root, group):
     fs.append([_comps(U), None])
     for d in group.get('decoy', []):
         p = os.path.join(U, tree['name'], *d['rel'])
-        _write(p, d['size'], 'decoy')
+        if d['size'] is None:                 # an unrelated *directory* of that name
+            os.makedirs(p, exist_ok=True)
+        else:
+            _write(p, d['size'], 'decoy')
         fs.append([_comps(p), d['size']])
     return locs, U, fs
 
@@ -431,20 +452,8 @@ def _diff(case, observed):
 
 
 def _is_model(case, observed):
-    """observed is what the model of the recorded defects computes (as the code is now, or with the
-    empty-file probe repaired on its own)"""
-    return observed == case['model'] or observed == case.get('model_pf')
-
-
-def m_empty_probe(case, observed, finding):
-    """D15a: the only deviation is on files whose emptiness probe (cwd/name/rel) answers wrongly"""
-    if observed != case['model'] or case['spell_class'] not in ('abs', 'dot', 'rel'):
-        return False
-    if observed.get('name', case['spec'].get('name')) != case['spec'].get('name', observed.get('name')):
-        return False
-    d = {p for p, _ in _diff(case, observed)}
-    wrong = {tuple(p) for p in case['probeWrong']}
-    return bool(d) and d <= wrong
+    """observed is what the model of the code as it is (with the recorded defects) computes"""
+    return 'model' in case and observed == case['model']
 
 
 def m_dotdot_patterns(case, observed, finding):
@@ -460,30 +469,38 @@ def m_dotdot_patterns(case, observed, finding):
     return bool(d) and any(verdict(st, '/'.join(('..',) + p)) != verdict(st, '/'.join((name,) + p)) for p in d)
 
 
+def _hidden(rel):
+    return any(c not in ('.', '..', '') and c.startswith('.') for c in rel)
+
+
 def m_common_prefix(case, observed, finding):
-    """D15c: all listed files share their first component (or there is one file in a directory)
-    and the deviation is on a file that is hidden below that shared part or hit by a pattern"""
+    """D15c: the files handed to filter_files (the non-empty listed ones) share their first
+    component (or there is one such file in a directory), and every deviating file is hidden
+    within that shared part or the pattern set is not empty"""
     if not _is_model(case, observed) or case['hypParts']['prefixOK'] or case['spell_class'] == 'name-lost':
         return False
+    tree = case['group']['tree']
+    ne = [tuple(f['rel']) for f in tree['files'] if f['size'] != 0]
+    if not ne:
+        return False
+    cp = os.path.commonprefix(ne)             # component-wise on tuples
     d = {p for p, _ in _diff(case, observed)}
-    # with the spelling '..' the probe path is '../rel', which does reach the tree's own file
-    wrong = set() if case['spell_class'] == 'dotdot' else {tuple(p) for p in case['probeWrong']}
-    return bool(d - wrong)
+    has_pat = any(case['group']['st'].values())
+    return bool(d) and all(p[:len(cp)] == tuple(cp) and (has_pat or _hidden(cp)) for p in d)
 
 
 def m_name_lost(case, observed, finding):
     """D15d: relative spelling that normalises to '.', '..', '../..' without being '.' or '..'
     (sub/.., ../.., ../sub/..): the torrent is named '' or '..'"""
     # the class of spellings is itself the narrow part; within it the torrent-relative paths are
-    # '../rel' or '<cwd name>/rel' under the name '..' / '', which also misleads patterns and the
-    # empty-file probe — all of it is what the model of the recorded defect computes
+    # '../rel' or '<cwd name>/rel' under the name '..' / '', which also misleads patterns — all of
+    # it is what the model of the recorded defect computes
     return _is_model(case, observed) and case['spell_class'] == 'name-lost'
 
 
 MATCHERS = {
     'c15_name_lost': m_name_lost,
     'c15_dotdot_patterns': m_dotdot_patterns,
-    'c15_empty_probe_cwd': m_empty_probe,
     'c15_common_prefix': m_common_prefix,
 }
 
@@ -552,11 +569,9 @@ def evaluate(ctx, drv, groups, thorough=False):
             ctx.dist['hyp' if hyp else 'outside-hyp'] += 1
             if any(g['st'].values()):
                 ctx.dist['with-patterns'] += 1
-            probe_wrong = rep.get('probeWrong', [])
             case = {'group': {k: g[k] for k in ('tree', 'st', 'decoy', 'shape')}, 'loc': r['loc'],
                     'variant': v, 'cwd': r['cwd'], 'spelling': r['spelling'], 'spell_class': sc,
-                    'hypParts': rep['hypParts'], 'model': M, 'model_pf': rep.get('modelProbeFixed'),
-                    'spec': S, 'probeWrong': probe_wrong}
+                    'hypParts': rep['hypParts'], 'model': M, 'spec': S}
             ctx.sample({'case': {k: case[k] for k in ('group', 'cwd', 'spelling')}, 'spec': S, 'impl': I, 'hyp': hyp})
             if hyp and not rep['modelEqSpec']:
                 ctx.machinery_error('model != spec under hyp although C15_created_partial is proved', case)
@@ -604,6 +619,556 @@ def evaluate(ctx, drv, groups, thorough=False):
 
 
 # ------------------------------------------------------------------------------------------
+
+def _F(rel, size):
+    return {'rel': rel.split('/') if rel else [], 'size': size}
+
+
+NOPAT = {'exg': [], 'exr': [], 'ing': [], 'inr': []}
+
+
+def empty_family():
+    """fixed trees with empty files; every one runs under all (cwd, spelling) variants at both
+    locations on every seed.  (tree name, files, settings, decoys below the unrelated cwd)"""
+    E = []
+
+    def add(tag, name, files, st=None, decoy=()):
+        E.append((tag, name, [_F(r, n) for r, n in files], dict(NOPAT, **(st or {})),
+                  [{'rel': r.split('/'), 'size': n} for r, n in decoy]))
+    top = [('a', 3), ('b', 2), ('e', 0)]
+    add('top', 'T', top)
+    add('top-first-in-order', 'T', [('0', 0), ('a', 3), ('b', 2)])
+    add('nested', 'T', [('a', 3), ('sub/e', 0), ('sub/b', 1), ('sub/x/y', 0), ('sub/x/z', 4)])
+    add('nested-only-empties-in-dir', 'T', [('a', 3), ('b', 1), ('sub/e', 0), ('sub/x/f', 0)])
+    add('in-hidden-dir', 'T', [('a', 3), ('b', 1), ('.hid/e', 0), ('.hid/x', 2), ('sub/.h/e', 0), ('sub/c', 1)])
+    add('hidden-empty-file', 'T', [('a', 3), ('b', 1), ('.e', 0), ('sub/.e', 0), ('sub/c', 1)])
+    add('only-file-in-dir', 'T', [('e', 0)])
+    add('only-file-nested', 'T', [('sub/x/e', 0)])
+    add('single-file-tree', 'e.bin', [('', 0)])
+    add('all-empty', 'T', [('e', 0), ('f', 0), ('sub/g', 0), ('sub/x/h', 0)])
+    add('hidden-root', '.T', [('a', 3), ('b', 1), ('e', 0), ('sub/e', 0)])
+    add('include-glob-matches-empty', 'T', top, {'ing': ['T/e']})
+    add('include-regex-matches-empty', 'T', top, {'inr': ['e$'], 'exg': ['*/b']})
+    add('include-all-exclude-all', 'T', [('a', 3), ('b', 2), ('e', 0), ('sub/e', 0), ('sub/c', 1)],
+        {'exg': ['*'], 'ing': ['*e', 'T/a']})
+    add('exclude-matches-empty', 'T', top, {'exr': ['^T/e$']})
+    add('case-variants', 'T', [('E', 0), ('e', 2), ('a/E.txt', 0), ('A/e.txt', 1)], {'exg': ['*/e.TXT']})
+    # unrelated same-named files below the cwd (U/T/…): empty where the tree's is not, non-empty
+    # where the tree's is empty, a directory of that name, nothing
+    add('decoy-empty-for-nonempty', 'T', top, decoy=[('a', 0)])
+    add('decoy-nonempty-for-empty', 'T', top, decoy=[('e', 5)])
+    add('decoy-both', 'T', [('a', 3), ('b', 2), ('e', 0), ('sub/e', 0), ('sub/c', 1)],
+        decoy=[('a', 0), ('e', 5), ('sub/c', 0), ('sub/e', 0)])
+    add('decoy-directories', 'T', top, decoy=[('a', None), ('e', None)])
+    add('decoy-with-patterns', 'T', top, {'exg': ['T/b'], 'ing': ['T/e']}, decoy=[('a', 0), ('b', 0), ('e', 1)])
+    # the reach of D15c since d89a92e: the *non-empty* files share a directory / are one file
+    add('d15c-one-nonempty-beside-empty', 'T', [('a.txt', 3), ('e', 0)], {'exg': ['T/a.txt']})
+    add('d15c-nonempty-share-hidden-dir', 'T', [('e', 0), ('.hid/a', 1), ('.hid/b', 1)])
+    add('d15c-nonempty-share-dir-no-pattern', 'T', [('e', 0), ('sub/a', 1), ('sub/b', 1)])
+    rng = random.Random(15)
+    gs = []
+    for i, (tag, name, files, st, decoy) in enumerate(E):
+        tree = {'name': name, 'files': files, 'dirs': []}
+        gs.append({'gid': f'e{i}', 'shape': 'empty:' + tag, 'tree': tree, 'st': st, 'decoy': decoy,
+                   'variants': variants_for(tree, rng), 'locs': [0, 1]})
+    return gs
+
+
+# ------------------------------------------------------------------------------------------
+# `Torrent.files = [File(name/rel, size), …]` (outside C15's statement): correspondence with the
+# model `filesSetter` only — what is probed is the given size and os.path.exists of the
+# torrent-relative path below the cwd
+
+def _run_files_setter(cases):
+    torf = common.import_torf()
+    wd = common.worker_dir()
+    home = os.getcwd()
+    out = []
+    try:
+        for c in cases:
+            root = os.path.join(wd, f"fs{c['id']}")
+            shutil.rmtree(root, ignore_errors=True)
+            fs = []
+            for cwdname, entries in c['world'].items():
+                base = os.path.join(root, cwdname)
+                os.makedirs(base, exist_ok=True)
+                fs.append([_comps(base), None])
+                for rel, size in entries:
+                    p = os.path.join(base, rel)
+                    if size is None:
+                        os.makedirs(p, exist_ok=True)
+                    else:
+                        _write(p, size, 'w')
+                    fs.append([_comps(p), size])
+            res = []
+            for cwdname in c['world']:
+                cwd = os.path.join(root, cwdname)
+                obs = {}
+                try:
+                    os.chdir(cwd)
+                    t = torf.Torrent()
+                    t.files = [torf.File(p, size=n) for p, n in c['items']]
+                    info = t.metainfo['info']
+                    if 'files' in info:
+                        obs = {'kind': 'multi', 'name': info.get('name'),
+                               'files': [[list(fi['path']), fi['length']] for fi in info['files']]}
+                    elif 'length' in info:
+                        obs = {'kind': 'single', 'name': info.get('name'), 'size': info['length']}
+                    else:
+                        obs = {'kind': 'empty'}
+                except BaseException as e:  # noqa
+                    obs = {'kind': 'error', 'err': type(e).__name__}
+                finally:
+                    os.chdir(home)
+                res.append({'cwd': cwd, 'obs': obs})
+            out.append({'case': c, 'fs': fs, 'results': res})
+            shutil.rmtree(root, ignore_errors=True)
+    finally:
+        os.chdir(home)
+    return out
+
+
+def files_setter_cases(rng, n):
+    cases = []
+    fixed = [
+        ([('T/a', 3), ('T/e', 0), ('T/zz', 0)],
+         {'P': [('T/a', 3), ('T/e', 0)], 'Q': [], 'U': [('T/a', 0), ('T/e', 5)], 'D': [('T/e', None), ('T/zz/x', 1)]}),
+        ([('T/e', 0)], {'P': [('T/e', 0)], 'Q': []}),
+        ([('e', 0)], {'P': [('e', 0)], 'Q': []}),
+        ([('a', 3)], {'P': [('a', 0)], 'Q': []}),
+        ([('T/e', 0), ('T/f', 0)], {'P': [('T/e', 0)], 'Q': [], 'R': [('T/e', 0), ('T/f', 2)]}),
+        ([('T/sub/a', 1), ('T/sub/e', 0), ('T/.h/x', 2)], {'P': [('T/sub/e', 0)], 'Q': [('T/sub', 0)]}),
+        ([('A/x', 1), ('B/y', 2)], {'P': []}),
+    ]
+    for items, world in fixed:
+        cases.append({'items': items, 'world': world})
+    names = ['a', 'b', 'e', 'sub/c', 'sub/e', '.h/x', 'sub/x/y']
+    for _ in range(n):
+        k = rng.randint(1, 5)
+        items = [('T/' + r, rng.choice([0, 0, 1, 4])) for r in rng.sample(names, k)]
+        world = {}
+        for cw in ('P', 'Q', 'R'):
+            ent = []
+            for p, _n in items:
+                x = rng.random()
+                if x < 0.35:
+                    ent.append((p, rng.choice([0, 0, 3])))
+                elif x < 0.45:
+                    ent.append((p, None))
+            world[cw] = ent
+        cases.append({'items': items, 'world': world})
+    for i, c in enumerate(cases):
+        c['id'] = i
+    return cases
+
+
+def evaluate_files_setter(ctx, drv, cases):
+    results = common.pmap(_run_files_setter, common.split(cases, common.NPROC * 2))
+    flat = [(gr['case'], gr['fs'], r) for chunk in results for gr in chunk for r in gr['results']]
+    reqs = [{'op': 'c15.files', 'cwd': _comps(r['cwd']), 'fs': fs,
+             'items': [{'path': p.split('/'), 'size': n} for p, n in c['items']]} for c, fs, r in flat]
+    for (c, fs, r), rep in zip(flat, drv.run(reqs)):
+        ctx.dist['files-setter'] += 1
+        if r['obs'] != rep['model']:
+            ctx.corr_break('c15.files', {'items': c['items'], 'world': c['world'], 'cwd': r['cwd']},
+                           rep['model'], r['obs'])
+
+
+# ------------------------------------------------------------------------------------------
+# histories: ONE Torrent object whose settings change step by step (path before / after the
+# patterns, patterns changed several times through every list operation, states in which every
+# file is excluded, an empty directory, path = None, single file <-> directory).  After every
+# operation the object is compared with
+#   F  a fresh Torrent(path, <the patterns the object holds now>)  — model-free, the property —
+#   M  the Lean model `trace` of the same history (`c15.history`; the change callback
+#      `_filters_changed` -> `path = path` / `files = files` mirrored) — correspondence.
+# The callback firings (the settings at each firing) are recorded by overriding `_filters_changed`
+# in a subclass; which firings a list operation produces is MonitoredList's business (C09/C16).
+
+H_GLOBS = ['*', '*.txt', '*.TXT', 'T/*', 't/*', '*/sub/*', '*a*', 'T/a.txt', '*.jpg', '*.bin', 'F.BIN',
+           '*/pics/*', 'T/sub/*', '*README', 'T*', '*/.hid*', '*e0', 'S/*', '*/d/*']
+H_REGEXS = ['txt$', '^T/', 'sub/', 'JPG$', '^T/a.txt$', 'bin$', 'a', '^f', 'T', '/', '^S/d/', 'README$']
+H_WHICH = ['exg', 'exr', 'ing', 'inr']
+H_ATTR = {'exg': 'exclude_globs', 'exr': 'exclude_regexs', 'ing': 'include_globs', 'inr': 'include_regexs'}
+
+
+def h_world(rng, kind):
+    """entries below the parent directory P: {relative path: size | None (directory)}"""
+    if kind == 'fixed':
+        T = {'T/a.txt': 3, 'T/b.txt': 5, 'T/pics/c.jpg': 2, 'T/pics/d.JPG': 1}
+    else:
+        names = ['a.txt', 'b.txt', 'c.jpg', 'd.JPG', 'README', '.hid', 'e0', 'x']
+        dirs = ['', '', 'sub/', 'pics/', '.git/', 'sub/deep/']
+        T = {}
+        for _ in range(rng.randint(1, 7)):
+            rel = rng.choice(dirs) + rng.choice(names)
+            T['T/' + rel] = 0 if rel.endswith('e0') or rng.random() < 0.1 else rng.choice([1, 2, 3, 9])
+    w = dict(T)
+    w['T'] = None
+    w['f.bin'] = rng.choice([4, 7]) if kind != 'fixed' else 7
+    w['E'] = None
+    w['S/d/one.txt'] = 2          # all files share a directory (D15c shape)
+    w['S/d/two.txt'] = 1
+    w['U'] = None
+    return w
+
+
+def h_pattern(rng, which):
+    return rng.choice(H_GLOBS if which in ('exg', 'ing') else H_REGEXS)
+
+
+def h_gen_ops(rng, n):
+    """python-level operations; the first one is the constructor"""
+    spell_dir = ['T', './T', 'T/', '{abs}/T', 'T', 'T']
+    others = ['f.bin', '{abs}/f.bin', 'E', 'S', 'nowhere']
+
+    def a_path():
+        x = rng.random()
+        if x < 0.6:
+            return rng.choice(spell_dir)
+        if x < 0.9:
+            return rng.choice(others)
+        return None
+
+    def a_filters():
+        f = {}
+        for wh in H_WHICH:
+            if rng.random() < (0.45 if wh == 'exg' else 0.2):
+                f[wh] = [h_pattern(rng, wh) for _ in range(rng.randint(1, 2))]
+        if rng.random() < 0.15:
+            f['exg'] = ['*']
+        return f
+    ops = [{'op': 'ctor', 'path': a_path() if rng.random() < 0.85 else None, 'filters': a_filters()}]
+    for _ in range(n):
+        x = rng.random()
+        wh = rng.choice(['exg', 'exg', 'exg', 'exr', 'ing', 'inr'])
+        if x < 0.18:
+            ops.append({'op': 'path', 'sp': a_path()})
+        elif x < 0.30:
+            ops.append({'op': 'assign', 'which': wh, 'v': [h_pattern(rng, wh) for _ in range(rng.randint(0, 2))]})
+        elif x < 0.42:
+            ops.append({'op': 'append', 'which': wh, 'v': h_pattern(rng, wh)})
+        elif x < 0.50:
+            ops.append({'op': 'append', 'which': 'exg', 'v': '*'})
+        elif x < 0.62:
+            ops.append({'op': 'clear', 'which': wh})
+        elif x < 0.72:
+            ops.append({'op': 'remove', 'which': wh, 'k': rng.randrange(4)})
+        elif x < 0.78:
+            ops.append({'op': 'extend', 'which': wh, 'v': [h_pattern(rng, wh) for _ in range(2)]})
+        elif x < 0.83:
+            ops.append({'op': 'pop', 'which': wh})
+        elif x < 0.88:
+            ops.append({'op': 'insert', 'which': wh, 'i': rng.randrange(3), 'v': h_pattern(rng, wh)})
+        elif x < 0.92:
+            ops.append({'op': 'setitem', 'which': wh, 'i': rng.randrange(2), 'v': h_pattern(rng, wh)})
+        elif x < 0.95:
+            ops.append({'op': 'delitem', 'which': wh, 'i': rng.randrange(2)})
+        elif x < 0.98:
+            ops.append({'op': 'iadd', 'which': wh, 'v': [h_pattern(rng, wh)]})
+        else:
+            ops.append({'op': 'reverse', 'which': wh})
+    return ops
+
+
+def h_fixed():
+    """histories that run on every seed: the object passes through 'every file excluded', an
+    empty directory, path = None, a single file, in every order of assignments"""
+    C = lambda path=None, **f: {'op': 'ctor', 'path': path, 'filters': f}      # noqa: E731
+    A = lambda wh, v: {'op': 'assign', 'which': wh, 'v': v}                    # noqa: E731
+    AP = lambda wh, v: {'op': 'append', 'which': wh, 'v': v}                   # noqa: E731
+    CL = lambda wh: {'op': 'clear', 'which': wh}                               # noqa: E731
+    RM = lambda wh, k=0: {'op': 'remove', 'which': wh, 'k': k}                 # noqa: E731
+    P = lambda sp: {'op': 'path', 'sp': sp}                                    # noqa: E731
+    H = [
+        [C('T', exg=['*.jpg']), CL('exg')],
+        [C('T', exg=['*.jpg']), A('exg', ['*.txt'])],
+        [C('T', exr=['jpg$']), AP('ing', '*/C.JPG')],
+        [C('T', exg=['*']), CL('exg')],
+        [C('T', exr=['txt$', 'jpg$', 'JPG$']), A('exr', ['jpg$'])],
+        [C('T', exg=['t/*']), AP('ing', '*.TXT')],
+        [C('T', exg=['*.txt', '*/pics/*']), RM('exg', 1)],
+        [C('f.bin', exg=['*.bin']), RM('exg', 0)],
+        [C('f.bin', exg=['*.bin']), AP('inr', 'bin$')],
+        [C('T'), AP('exg', '*'), AP('exg', 'x'), RM('exg', 0)],
+        [C('T'), A('exg', ['*']), A('exg', ['*']), A('exg', [])],
+        [C('T'), A('exr', ['/']), {'op': 'pop', 'which': 'exr'}],
+        [C('T'), A('exg', ['T/*']), {'op': 'setitem', 'which': 'exg', 'i': 0, 'v': '*.jpg'}],
+        [C('T'), A('exg', ['T/*']), {'op': 'delitem', 'which': 'exg', 'i': 0}],
+        [C('T'), A('exg', ['T/*']), {'op': 'iadd', 'which': 'ing', 'v': ['*.txt']}],
+        [C('T'), A('exg', ['T/*']), {'op': 'extend', 'which': 'inr', 'v': ['txt$', 'a']}],
+        [C('T'), A('exg', ['*', '*.jpg']), {'op': 'reverse', 'which': 'exg'}, {'op': 'pop', 'which': 'exg'}],
+        [C(None, exg=['*']), P('T'), CL('exg')],
+        [C(None), A('exg', ['*.txt']), P('T'), A('exg', ['*']), P('T'), CL('exg')],
+        [C('T'), P(None), A('exg', ['*a.txt']), CL('exg')],
+        [C('T'), A('exg', ['*']), P(None), CL('exg'), P('T')],
+        [C('T', exg=['*.txt']), P(None), P('T'), CL('exg')],
+        [C('E'), A('exg', ['*']), CL('exg'), P('T'), A('exg', ['*']), P('E'), CL('exg'), P('T')],
+        [C('f.bin'), P('T'), A('exg', ['*']), P('f.bin'), CL('exg'), P('T')],
+        [C('T'), A('exg', ['*']), P('f.bin'), P('T'), CL('exg')],
+        [C('T'), A('exg', ['*']), P('nowhere'), CL('exg')],
+        [C('S', exg=['*']), CL('exg'), AP('exg', 'S/d/one.txt'), CL('exg')],
+        [C('{abs}/T', exg=['*']), CL('exg'), P(None), AP('exg', '*.txt')],
+        [C('./T', exr=['T']), AP('ing', '*'), CL('ing'), CL('exr')],
+    ]
+    return H
+
+
+def _h_settings(t):
+    return {'exg': [str(x) for x in t.exclude_globs], 'exr': [r.pattern for r in t.exclude_regexs],
+            'ing': [str(x) for x in t.include_globs], 'inr': [r.pattern for r in t.include_regexs]}
+
+
+def _h_observe(t):
+    info = t.metainfo['info']
+    if 'files' in info:
+        c = {'kind': 'multi', 'name': info.get('name'),
+             'files': [[list(fi['path']), fi['length']] for fi in info['files']]}
+    elif 'length' in info:
+        c = {'kind': 'single', 'name': info.get('name'), 'size': info['length']}
+    else:
+        c = {'kind': 'empty'}
+    return {'created': c, 'path': None if t.path is None else str(t.path), 'infoName': info.get('name'),
+            'piece_length': info.get('piece length'), 'files': [[str(f), f.size] for f in t.files]}
+
+
+def _h_apply(torf, cls, t, op, root):
+    """apply one python-level operation; returns the (possibly new) object"""
+    k = op['op']
+    if k == 'ctor':
+        f = op['filters']
+        sp = op['path'].format(abs=root) if op['path'] else None
+        return cls(path=sp, exclude_globs=f.get('exg', ()), exclude_regexs=f.get('exr', ()),
+                   include_globs=f.get('ing', ()), include_regexs=f.get('inr', ()))
+    if k == 'path':
+        t.path = op['sp'].format(abs=root) if op['sp'] else None
+        return t
+    lst = getattr(t, H_ATTR[op['which']])
+    if k == 'assign':
+        setattr(t, H_ATTR[op['which']], op['v'])
+    elif k == 'append':
+        lst.append(op['v'])
+    elif k == 'extend':
+        lst.extend(op['v'])
+    elif k == 'clear':
+        lst.clear()
+    elif k == 'remove':
+        if len(lst):
+            lst.remove(lst[op['k'] % len(lst)])
+    elif k == 'pop':
+        if len(lst):
+            lst.pop()
+    elif k == 'insert':
+        lst.insert(op['i'], op['v'])
+    elif k == 'setitem':
+        if len(lst):
+            lst[op['i'] % len(lst)] = op['v']
+    elif k == 'delitem':
+        if len(lst):
+            del lst[op['i'] % len(lst)]
+    elif k == 'iadd':
+        lst += op['v']
+    elif k == 'reverse':
+        lst.reverse()
+    return t
+
+
+def _run_histories(cases):
+    torf = common.import_torf()
+    wd = common.worker_dir()
+    home = os.getcwd()
+    events = []
+
+    class Rec(torf.Torrent):
+        def _filters_changed(self, lst):
+            events.append({'op': 'fire', 'st': _h_settings(self)})
+            return super()._filters_changed(lst)
+    out = []
+    try:
+        for c in cases:
+            top = os.path.join(wd, f"h{c['id']}")
+            shutil.rmtree(top, ignore_errors=True)
+            root = os.path.join(top, 'P')
+            os.makedirs(root)
+            fs = [[_comps(root), None]]
+            for rel, size in sorted(c['world'].items()):
+                p = os.path.join(root, rel)
+                if size is None:
+                    os.makedirs(p, exist_ok=True)
+                else:
+                    _write(p, size, rel)
+                fs.append([_comps(p), size])
+            for p in sorted({os.path.dirname(os.path.join(root, rel)) for rel in c['world']}):
+                if [_comps(p), None] not in fs:
+                    fs.append([_comps(p), None])
+            cwd = os.path.join(root, c['cwd']) if c['cwd'] else root
+            steps = []
+            t = None
+            user_sp = None             # the spelling of the last path assignment that worked
+            try:
+                os.chdir(cwd)
+                for op in c['ops']:
+                    del events[:]
+                    exc = None
+                    try:
+                        t = _h_apply(torf, Rec, t, op, root)
+                    except BaseException as e:  # noqa
+                        exc = type(e).__name__
+                        if t is None:
+                            break
+                    evs = list(events)
+                    if op['op'] == 'ctor':
+                        evs.append({'op': 'path', 'sp': op['path'].format(abs=root) if op['path'] else None})
+                        if exc is None:
+                            user_sp = op['path'].format(abs=root) if op['path'] else None
+                    elif op['op'] == 'path':
+                        sp = op['sp'].format(abs=root) if op['sp'] else None
+                        evs.append({'op': 'path', 'sp': sp})
+                        if exc is None:
+                            user_sp = sp
+                    st = {'op': op, 'events': evs, 'exc': exc, 'obs': _h_observe(t), 'settings': _h_settings(t),
+                          'user_sp': user_sp}
+                    if user_sp is not None and t.path is not None:
+                        f = st['settings']
+                        try:
+                            fr = torf.Torrent(path=user_sp, exclude_globs=f['exg'], exclude_regexs=f['exr'],
+                                              include_globs=f['ing'], include_regexs=f['inr'])
+                            st['fresh'] = _h_observe(fr)
+                            if c.get('thorough') and st['fresh']['created']['kind'] != 'empty' \
+                                    and st['obs']['created'] == st['fresh']['created']:
+                                try:
+                                    t.generate()
+                                    fr.generate()
+                                    st['infohash'] = [t.infohash, fr.infohash]
+                                except BaseException as e:  # noqa
+                                    st['infohash'] = ['raised ' + type(e).__name__, None]
+                        except BaseException as e:  # noqa
+                            st['fresh'] = {'created': {'kind': 'error', 'err': type(e).__name__}}
+                    steps.append(st)
+            finally:
+                os.chdir(home)
+            out.append({'case': c, 'fs': fs, 'cwd': cwd, 'root': root, 'steps': steps})
+            shutil.rmtree(top, ignore_errors=True)
+    finally:
+        os.chdir(home)
+    return out
+
+
+def history_cases(rng, n):
+    cases = []
+    frng = random.Random(3)
+    for ops in h_fixed():
+        cases.append({'world': h_world(frng, 'fixed'), 'cwd': '', 'ops': ops, 'kind': 'fixed'})
+    for _ in range(n):
+        cwd = rng.choice(['', '', '', 'U'])
+        ops = h_gen_ops(rng, rng.randint(2, 7))
+        if cwd == 'U':                   # only absolute spellings make sense from elsewhere
+            for op in ops:
+                for key in ('path', 'sp'):
+                    if op.get(key) and not op[key].startswith('{abs}'):
+                        op[key] = '{abs}/' + op[key].lstrip('./')
+        cases.append({'world': h_world(rng, 'random'), 'cwd': cwd, 'ops': ops, 'kind': 'random'})
+    for i, c in enumerate(cases):
+        c['id'] = i
+    return cases
+
+
+def _h_strip(root, x):
+    """scratch-independent form of a path string for keys / reports"""
+    return x.replace(root, '{abs}') if isinstance(x, str) else x
+
+
+def m_stale_name(case, observed, finding):
+    """D15e: a history whose final state holds no file; the only difference to the fresh object is
+    the key info['name'], left over from an earlier state of the same object"""
+    if case.get('kind') != 'history' or case.get('aspect') != 'info-name':
+        return False
+    exp = case['fresh']
+    return (observed['created'] == {'kind': 'empty'} and exp['created'] == {'kind': 'empty'}
+            and exp['infoName'] is None and observed['infoName'] is not None
+            and observed['infoName'] in case.get('earlier_names', []))
+
+
+MATCHERS['c15_stale_name_when_empty'] = m_stale_name
+
+
+def evaluate_histories(ctx, drv, cases, thorough=False):
+    for c in cases:
+        c['thorough'] = thorough
+    results = common.pmap(_run_histories, common.split(cases, common.NPROC * 4))
+    flat = [r for chunk in results for r in chunk]
+    reqs = []
+    for r in flat:
+        evs = [e for st in r['steps'] for e in st['events']]
+        reqs.append({'op': 'c15.history', 'cwd': _comps(r['cwd']), 'fs': r['fs'], 'ops': evs})
+    for r, rep in zip(flat, drv.run(reqs)):
+        c = r['case']
+        root = r['root']
+        hist = [st['op'] for st in r['steps']]
+        key = hashlib.sha1(json.dumps([c['world'], c['cwd'], c['ops']], sort_keys=True).encode()).hexdigest()[:14]
+        nchanges = sum(1 for o in c['ops'] if o['op'] not in ('ctor', 'path'))
+        ctx.case(key=('history', key), nontrivial=nchanges >= 1 and len(c['ops']) >= 2,
+                 kind=f"history/{c['kind']}/{c['cwd'] or 'P'}")
+        ctx.dist['history-steps'] += len(r['steps'])
+        states = rep['states']
+        k = 0
+        earlier_names = []
+        for i, st in enumerate(r['steps']):
+            k += len(st['events'])
+            obs = st['obs']
+            base = {'kind': 'history', 'world': c['world'], 'cwd': c['cwd'], 'ops': c['ops'][:i + 1],
+                    'step': i, 'settings': st['settings'], 'user_sp': _h_strip(root, st['user_sp'])}
+            if obs['created']['kind'] == 'empty' and all(s['obs']['created']['kind'] == 'empty' for s in r['steps'][:i]):
+                ctx.dist['history-state:never-had-files'] += 1
+            elif obs['created']['kind'] == 'empty':
+                ctx.dist['history-state:all-excluded-after-files'] += 1
+            # F: the fresh object with the same path and patterns (the property, model-free)
+            if 'fresh' in st:
+                fr = st['fresh']
+                ctx.dist['history-vs-fresh'] += 1
+                bad = None
+                if obs['created'] != fr['created']:
+                    bad = 'content'
+                elif obs['files'] != fr.get('files'):
+                    bad = 'Torrent.files'
+                elif obs['piece_length'] != fr.get('piece_length'):
+                    bad = 'piece length'
+                elif 'infohash' in st and st['infohash'][0] != st['infohash'][1]:
+                    bad = 'infohash'
+                if bad:
+                    ctx.violation(f"after {len(base['ops'])} operations on one Torrent object its {bad} differs from a fresh "
+                                  f"Torrent(path={base['user_sp']!r}, <the same patterns>): it depends on the settings it had earlier",
+                                  dict(base, aspect=bad), fr, obs, finding_matchers=MATCHERS)
+                    break
+                if obs['infoName'] != fr['infoName']:
+                    ctx.violation(f"after {len(base['ops'])} operations on one Torrent object info['name'] differs from a fresh "
+                                  f"Torrent(path={base['user_sp']!r}, <the same patterns>)",
+                                  dict(base, aspect='info-name', fresh=fr, earlier_names=list(earlier_names)),
+                                  {'created': fr['created'], 'infoName': fr['infoName']},
+                                  {'created': obs['created'], 'infoName': obs['infoName']}, finding_matchers=MATCHERS)
+            if obs['infoName'] is not None and obs['infoName'] not in earlier_names:
+                earlier_names.append(obs['infoName'])
+            # M: the model of the same sequence of path assignments and callback firings
+            if k == 0 or k > len(states):
+                continue
+            ms = states[k - 1]
+            mine = {'created': obs['created'], 'path': obs['path'], 'infoName': obs['infoName']}
+            model = {'created': ms['created'], 'path': ms['path'], 'infoName': ms['infoName']}
+            if mine != model:
+                ctx.corr_break('c15.history', dict(base, events=[_h_strip(root, json.dumps(e)) for e in st['events']]),
+                               model, mine)
+                break
+            if 'fresh' in st and ms.get('fresh') and not ms['reattached'] and \
+                    st['fresh']['created'] != ms['fresh']['created']:
+                ctx.corr_break('c15.history.fresh', base, ms['fresh'], st['fresh']['created'])
+                break
+            if st['exc'] is not None:
+                ctx.dist['history-op-raised:' + st['exc']] += 1
+                errs = [x['err'] for x in states[k - len(st['events']):k] if x['err']]
+                if not errs:
+                    ctx.corr_break('c15.history.raise', base, None, st['exc'])
+                    break
+
 
 def witness_groups(ctx):
     gs = []
@@ -654,8 +1219,19 @@ def run(ctx, drv):
         evaluate(ctx, drv, [g], thorough=False)
         if ctx.dist.get('known-finding:' + fid, 0) == before:
             ctx.not_reproduced.append(fid)
-    # 2. corpus, 3. generated groups
-    evaluate(ctx, drv, corpus_groups() + gen_groups(ctx), thorough=ctx.thorough)
+    for f in ctx.open_findings():
+        h = f.get('witness', {}).get('history')
+        if h:
+            before = ctx.dist.get('known-finding:' + f['id'], 0)
+            evaluate_histories(ctx, drv, [dict(json.loads(json.dumps(h)), kind='witness:' + f['id'], id=0)])
+            if ctx.dist.get('known-finding:' + f['id'], 0) == before:
+                ctx.not_reproduced.append(f['id'])
+    # 2. corpus, 3. the fixed family of trees with empty files, 4. generated groups
+    evaluate(ctx, drv, corpus_groups() + empty_family() + gen_groups(ctx), thorough=ctx.thorough)
+    # 5. the `files` setter against its model (correspondence only)
+    evaluate_files_setter(ctx, drv, files_setter_cases(ctx.rng, ctx.n(60, 600)))
+    # 6. histories of settings on one object against the fresh object and the model
+    evaluate_histories(ctx, drv, history_cases(ctx.rng, ctx.n(400, 6000)), thorough=ctx.thorough)
     ctx.exhaustive = False
 
 
@@ -664,10 +1240,16 @@ def search(ctx, drv):
     for i, g in enumerate(gs):
         g['gid'] = f's{i}'
     evaluate(ctx, drv, gs, thorough=False)
+    evaluate_histories(ctx, drv, history_cases(ctx.rng, ctx.n(800, 4000)), thorough=False)
 
 
 def replay(ctx, drv, rp):
     case = rp['case']
+    if case.get('kind') == 'history':
+        evaluate_histories(ctx, drv, [{'world': case['world'], 'cwd': case['cwd'], 'ops': case['ops'],
+                                       'kind': 'replay', 'id': 0}], thorough=False)
+        return {'fails': bool(ctx.violations or ctx.known or ctx.corr_breaks),
+                'violations': ctx.violations, 'known': list(ctx.known), 'corr_breaks': ctx.corr_breaks}
     if 'a' in case and 'group' not in case:
         case = case['a']
     g = json.loads(json.dumps(case['group']))
